@@ -2,6 +2,7 @@
 import interpcheck
 
 BASE = {}
+STRUCT_VALUES = ("emptystruct", "structval")
 
 
 def impl_oracle(c):
@@ -20,8 +21,13 @@ def impl_oracle(c):
         return []
     if c["impl"]["status"] == "panic":
         return []   # reported by the generic panic rule
-    return ["operation %s on a %s value obtained through %s gives %s %s, but %s %s when read from a variable"
-            % (t[0], t[1], t[2], got[0], got[1], want[0], want[1])]
+    msg = ("operation %s on a %s value obtained through %s gives %s %s, but %s %s when read from a variable"
+           % (t[0], t[1], t[2], got[0], got[1], want[0], want[1]))
+    if t[0].startswith("addr-store") and t[1] in STRUCT_VALUES:
+        # known_findings.txt: a struct made with make is a cell that `t = v` shares and `&t` points into, a struct that came out of
+        # a container or a Go function is a value
+        return [(msg, "struct-made-by-make-is-a-cell")]
+    return [msg]
 
 
 def run(tier, seed, replay=None):
